@@ -63,6 +63,8 @@ COQ_TY = {"int": "Z", "bytes": "bytes", "bool": "bool", "boollist": "list bool",
           "optint": "option Z",       # Optional[int]
           "match2": "(list Z * list Z)",            # re.Match of a pattern with two groups that always take part
           "optmatch2": "option (list Z * list Z)",  # what pattern.match() returns
+          "buffer": "bytes",          # py7zr.io.Buffer: the bytes of its view
+          "cipher": "C",              # abstract cipher state (Section variable of the generated file)
           "unit": "unit"}
 
 
@@ -116,11 +118,31 @@ for _n, _c, _r in (("_check_volumesize_valid", "check_volumesize_valid", "bool")
     # methods of cli.Cli that only read the constants self.unit_pattern (compiled in __init__) and Cli.dunits
     WAVE2["Cli." + _n] = dict(file="cli.py", qual="Cli." + _n, kind="method", cls="Cli", coqname=_c, selfargs={},
                               self_props={}, args={"size": "str"}, ret=_r, out="CliVol")
+for _q, _args in (("AESCompressor.compress", {"data": "bytes"}), ("AESCompressor.flush", {}),
+                   ("AESDecompressor.decompress", {"data": "bytes", "max_length": "int"})):
+    # the residue-buffer arithmetic around an abstract cipher.  Object state: self.buf (py7zr.io.Buffer, identified with
+    # the bytes of its view: add = append, set = replace, reset = empty, len = length of the view) and self.cipher (an
+    # abstract state C threaded through enc / dec : C -> bytes -> res (C * bytes), the Section variables of the generated
+    # file: self.cipher.encrypt / decrypt may raise).  A method returns (result, (buf, cipher)) = the value and the new state.
+    WAVE2[_q] = dict(file="compressor.py", qual=_q, kind="objmethod", cls=_q.split(".")[0], coqname=_q.replace(".", "_"),
+                     state={"buf": ("self_buf", "buffer"), "cipher": ("self_cipher", "cipher")},
+                     cipher_ops={"encrypt": "enc", "decrypt": "dec"}, args=_args, ret="bytes", out="AesBuf")
+# the block loop of helpers.calculate_crc32 over an abstract zlib.crc32 (Section variable zcrc32 : data -> value -> value);
+# the `while` runs on explicit fuel (first parameter; Err EFuel when it runs out)
+WAVE2["calculate_crc32"] = dict(file="helpers.py", qual="calculate_crc32", kind="pure", fuel=True,
+                                externs={"zlib.crc32": ("zcrc32", ["bytes", "int"], "int")},
+                                args={"data": "bytes", "value": "int", "blocksize": "int"}, ret="int", out="HelpersCrc")
 OUT_FILES = {
-    # out -> (source description, Require line)
+    # out -> (source description, Require line[, lines opening a Section, line closing it])
     "HelpersPath": ("py7zr/helpers.py", "From P7 Require Import Prelude PyPrims PyStr Path."),
     "AttrDecoders": ("py7zr/py7zr.py (class ArchiveFile)", "From P7 Require Import Prelude PyPrims PyStr PyStat."),
     "CliVol": ("py7zr/cli.py (class Cli)", "From P7 Require Import Prelude PyPrims PyStr PyRe."),
+    "AesBuf": ("py7zr/compressor.py (classes AESCompressor, AESDecompressor)", "From P7 Require Import Prelude PyPrims PyStr.",
+               "Section AesBuf.\n(* the cipher object: an abstract state and the two operations the code calls on it *)\n"
+               "Variable C : Type.\nVariable enc : C -> bytes -> res (C * bytes).   (* self.cipher.encrypt(data) *)\n"
+               "Variable dec : C -> bytes -> res (C * bytes).   (* self.cipher.decrypt(data) *)\n", "End AesBuf."),
+    "HelpersCrc": ("py7zr/helpers.py (calculate_crc32)", "From P7 Require Import Prelude PyPrims PyStr.",
+                   "Section HelpersCrc.\nVariable zcrc32 : bytes -> Z -> Z.   (* zlib.crc32(data, value) *)\n", "End HelpersCrc."),
 }
 # the regular expressions the translator knows: r"^([0-9]+)([<ascii lower-case letters>]?)$" compiled with
 # re.IGNORECASE -> PyRe.re_digits_optletter_ci <letters> (compared with CPython's re by tools/harness/prims.py)
@@ -183,6 +205,8 @@ class FnTr:
             self.refuse(e, "constant")
         if isinstance(e, ast.Name):
             if e.id not in self.ty:
+                if self.module is not None and e.id in self.local_names():
+                    self.refuse(e, "local variable %s may be unbound here" % e.id)
                 c = self.module_constant(e.id)
                 if c is not None:
                     return self.expr(c)
@@ -199,6 +223,8 @@ class FnTr:
                 return p, "(- %s)" % v, "int"
             if isinstance(e.op, ast.Not) and t == "bool":
                 return p, "(negb %s)" % v, "bool"
+            if isinstance(e.op, ast.Invert) and t == "int" and self.module is not None:
+                return p, "(Z.lnot %s)" % v, "int"
             self.refuse(e, "unary")
         if isinstance(e, ast.BinOp):
             return self.binop(e)
@@ -244,6 +270,22 @@ class FnTr:
         self.refuse(e, "expression")
 
     # ---------------- second wave helpers ----------------
+    def local_names(self):
+        """every name the function binds anywhere (assignments, loop targets, with/except/import/walrus/comprehension)"""
+        if getattr(self, "_locals", None) is None:
+            out = set(a.arg for a in self.node.args.args)
+            for n in ast.walk(self.node):
+                if isinstance(n, ast.Name) and isinstance(n.ctx, (ast.Store, ast.Del)):
+                    out.add(n.id)
+                elif isinstance(n, ast.alias):
+                    out.add((n.asname or n.name).split(".")[0])
+                elif isinstance(n, ast.ExceptHandler) and n.name:
+                    out.add(n.name)
+                elif isinstance(n, (ast.FunctionDef, ast.ClassDef)) and n is not self.node:
+                    out.add(n.name)
+            self._locals = out
+        return self._locals
+
     def module_constant(self, name):
         """the constant expression a module-level `NAME = <int/str/bytes literal>` binds (assigned exactly once)"""
         if self.module is None:
@@ -256,6 +298,11 @@ class FnTr:
             elif isinstance(st, (ast.AugAssign, ast.AnnAssign)):
                 tgts = [st.target]
             elif isinstance(st, (ast.Global, ast.Nonlocal)) and name in st.names:
+                return None
+            elif isinstance(st, (ast.Import, ast.ImportFrom)) and any(
+                    (a.asname or a.name).split(".")[0] == name or a.name == "*" for a in st.names):
+                return None
+            elif isinstance(st, (ast.FunctionDef, ast.ClassDef)) and st.name == name:
                 return None
             for t in tgts:
                 for n in ast.walk(t):
@@ -280,7 +327,12 @@ class FnTr:
         d = self.dotted(e)
         if d in EXTERNAL_CONSTANTS and d.split(".")[0] not in self.ty:
             return [], str_lit(EXTERNAL_CONSTANTS[d]), "str"
+        if self.kind == "objmethod" and isinstance(e.value, ast.Name) and e.value.id == "self" \
+                and e.attr in self.spec["state"] and "self" not in self.ty:
+            return [], self.spec["state"][e.attr][0], self.spec["state"][e.attr][1]
         p, v, t = self.expr(e.value)
+        if t == "buffer" and e.attr == "view":
+            return p, v, "bytes"
         if t == "path":
             if e.attr == "parts":
                 return p, "(pp_parts %s)" % v, "list:str"
@@ -577,11 +629,34 @@ class FnTr:
                 pre += p
                 vs.append(v)
             return pre, "([%s] : ppath)" % "; ".join(vs), "path"
+        if d in self.spec.get("externs", {}) and d.split(".")[0] not in self.ty:
+            fn, ats, rt = self.spec["externs"][d]
+            if len(args) != len(ats):
+                self.refuse(e, "arity of " + d)
+            pre, vs = [], []
+            for a, at in zip(args, ats):
+                p, v, t = self.expr(a)
+                if t != at:
+                    self.refuse(e, "argument type of %s: %s" % (d, t))
+                pre += p
+                vs.append(v)
+            return pre, "(%s %s)" % (fn, " ".join(vs)), rt
         if isinstance(f.value, ast.Name) and f.value.id == "self" and self.kind == "method":
             return self.selfcall(e)
         if isinstance(f.value, ast.Attribute) and isinstance(f.value.value, ast.Name) and f.value.value.id == "self" \
                 and self.kind == "method":
             return self.self_regex(e)
+        if isinstance(f.value, ast.Attribute) and isinstance(f.value.value, ast.Name) and f.value.value.id == "self" \
+                and self.kind == "objmethod":
+            sv, st_ = self.spec["state"].get(f.value.attr, (None, None))
+            if st_ == "cipher" and f.attr in self.spec["cipher_ops"] and len(args) == 1:
+                p, v, t = self.expr(args[0])
+                if t != "bytes":
+                    self.refuse(e, "cipher argument type " + t)
+                t1 = self.fresh()
+                return p + ["do %sr <- %s %s %s;" % (t1, self.spec["cipher_ops"][f.attr], sv, v),
+                            "let '(%s, %s) := %sr in" % (sv, t1, t1)], t1, "bytes"
+            self.refuse(e, "method self.%s.%s" % (f.value.attr, f.attr))
         if d is not None and d.startswith("stat.") and "stat" not in self.ty and f.attr in STAT_FUNCTIONS and len(args) == 1:
             fn, rt = STAT_FUNCTIONS[f.attr]
             p, v, t = self.unwrap(*self.expr(args[0]))
@@ -611,7 +686,7 @@ class FnTr:
         if cls is None:
             return None
         found = []
-        for st in ast.walk(cls):
+        for st in ast.walk(self.module):
             tgts = []
             if isinstance(st, ast.Assign):
                 tgts = st.targets
@@ -625,6 +700,9 @@ class FnTr:
                         found.append((st, "inst"))
                     if isinstance(n, ast.Name) and n.id == name and st in cls.body:
                         found.append((st, "class"))
+            if isinstance(st, ast.Call) and isinstance(st.func, ast.Name) and st.func.id in ("setattr", "delattr") \
+                    and len(st.args) >= 2 and not (isinstance(st.args[1], ast.Constant) and st.args[1].value != name):
+                found.append((st, "setattr"))
         if len(found) != 1 or not isinstance(found[0][0], ast.Assign) or len(found[0][0].targets) != 1:
             return None
         st, where = found[0]
@@ -744,6 +822,8 @@ class FnTr:
             return ["Ok (%s, inp)" % val]
         if self.kind == "writer":
             return ["Ok out"]
+        if self.kind == "objmethod":
+            return ["Ok (%s, (%s))" % (val, ", ".join(v for v, _ in self.spec["state"].values()))]
         return ["Ok %s" % val]
 
     def block(self, stmts, k):
@@ -822,6 +902,20 @@ class FnTr:
             self.refuse(st, "augassign target")
         if isinstance(st, ast.Expr):
             c = st.value
+            if isinstance(c, ast.Call) and isinstance(c.func, ast.Attribute) and self.kind == "objmethod" \
+                    and isinstance(c.func.value, ast.Attribute) and isinstance(c.func.value.value, ast.Name) \
+                    and c.func.value.value.id == "self":
+                sv, st_ = self.spec["state"].get(c.func.value.attr, (None, None))
+                if st_ == "buffer" and not c.keywords:
+                    if c.func.attr in ("add", "set") and len(c.args) == 1:
+                        p, v, t = self.expr(c.args[0])
+                        if t != "bytes":
+                            self.refuse(st, "Buffer.%s argument type %s" % (c.func.attr, t))
+                        new = "%s ++ %s" % (sv, v) if c.func.attr == "add" else v
+                        return p + ["let %s := %s in" % (sv, new)] + cont()
+                    if c.func.attr == "reset" and not c.args:
+                        return ["let %s : bytes := [] in" % sv] + cont()
+                self.refuse(st, "method self.%s.%s" % (c.func.value.attr, c.func.attr))
             if isinstance(c, ast.Call) and isinstance(c.func, ast.Attribute):
                 if self.is_file(c.func.value) and c.func.attr == "write" and self.kind == "writer" and len(c.args) == 1:
                     p, v, t = self.expr(c.args[0])
@@ -872,11 +966,44 @@ class FnTr:
             return p + ["if %s then" % c] + ["  " + x for x in a] + ["else"] + b
         if isinstance(st, ast.For):
             return self.forloop(st, cont)
+        if isinstance(st, ast.While) and self.module is not None:
+            return self.whileloop(st, cont)
         if isinstance(st, ast.Break):
             return ["BREAK"]
         if isinstance(st, ast.Continue):
             return ["CONTINUE"]
         self.refuse(st, "statement")
+
+    def whileloop(self, st, cont):
+        """while c: body  ->  while_m fuel (fun state => c) (fun state => body) state   (Err EFuel when the fuel runs out)"""
+        if st.orelse or not self.spec.get("fuel"):
+            self.refuse(st, "while")
+        if any(isinstance(n, ast.Return) for n in ast.walk(ast.Module(body=st.body, type_ignores=[]))):
+            self.refuse(st, "return inside while")
+        state = [v for v in self.assigned(st.body) if v in self.ty]
+        if not state:
+            self.refuse(st, "loop without state")
+        pc, c = self.test(st.test)
+        if pc:
+            self.refuse(st, "effect in a while condition")
+        tup = state[0] if len(state) == 1 else "(%s)" % ", ".join(state)
+        spat = state[0] if len(state) == 1 else "'(%s)" % ", ".join(state)
+        before = dict(self.ty)
+        self.loops.append({"ret": False})
+        body = self.block(st.body, lambda: ["CONTINUE"])
+        self.loops.pop()
+        self.ty = before
+        body = [("Ok (%s, true)" % tup) if x.strip() == "BREAK" else ("Ok (%s, false)" % tup) if x.strip() == "CONTINUE" else x
+                for x in body]
+        st_name = self.fresh() + "s"
+        lines = ["do %s <- while_m fuel (fun %s => %s) (fun %s =>" % (st_name, spat, c, spat)]
+        lines += ["    " + x for x in body]
+        lines[-1] += ") %s;" % tup
+        if len(state) == 1:
+            lines += ["let %s := %s in" % (state[0], st_name)]
+        else:
+            lines += ["let '(%s) := %s in" % (", ".join(state), st_name)]
+        return lines + cont()
 
     def forloop(self, st, cont):
         if st.orelse:
@@ -909,6 +1036,11 @@ class FnTr:
                 self.refuse(st, "iteration over " + t)
         # loop variable pattern
         tg = st.target
+        before = dict(self.ty)
+        if self.module is not None:
+            for n in ast.walk(tg):
+                if isinstance(n, ast.Name) and n.id in self.ty:
+                    self.refuse(st, "loop target %s rebinds an existing variable" % n.id)
         if isinstance(tg, ast.Name):
             pat = tg.id
             self.ty[tg.id] = elty
@@ -938,6 +1070,8 @@ class FnTr:
         self.loops.append({"ret": False})
         body = self.block(st.body, lambda: ["CONTINUE"])
         self.loops.pop()
+        if self.module is not None:
+            self.ty = before    # the loop target and names first bound in the body are not bound after the loop here
         rtup = None
         if has_ret:
             rtup = "(%s)" % ", ".join(state[:-1] + ["Some RV"]) if len(state) > 1 else "Some RV"
@@ -975,7 +1109,7 @@ class FnTr:
         if self.kind in ("reader", "writer"):
             self.filevar = params[0]
             params = params[1:]
-        if self.kind == "method":
+        if self.kind in ("method", "objmethod"):
             if not params or params[0] != "self":
                 self.refuse(node, "method without self")
             params = params[1:]
@@ -988,12 +1122,20 @@ class FnTr:
             for p, t in self.spec["selfargs"].items():
                 self.ty[p] = t
             sig = " ".join(["(%s : %s)" % (p, coq_ty(t)) for p, t in self.spec["selfargs"].items()] + ([sig] if sig else []))
+        if self.kind == "objmethod":
+            sig = " ".join(["(%s : %s)" % (v, coq_ty(t)) for v, t in self.spec["state"].values()] + ([sig] if sig else []))
+        if self.spec.get("fuel"):
+            if "fuel" in self.ty:
+                self.refuse(node, "a variable named fuel")
+            sig = "(fuel : nat) " + sig
         if self.kind == "reader":
             head = "Definition %s (inp : bytes) %s : res (%s * bytes) :=" % (self.name, sig, coq_ty(self.retty))
         elif self.kind == "writer":
             head = "Definition %s %s : res bytes :=\n  let out : bytes := [] in" % (self.name, sig)
         else:
             rt = coq_ty(self.retty)
+            if self.kind == "objmethod":
+                rt = "(%s * (%s))" % (rt, " * ".join(coq_ty(t) for _, t in self.spec["state"].values()))
             head = "Definition %s %s : res %s :=" % (self.spec.get("coqname", self.name.split(".")[-1]), sig,
                                                      "(%s)" % rt if " " in rt and not rt.startswith("(") else rt)
         body = self.block(node.body, lambda: self.ret("tt"))
@@ -1042,8 +1184,13 @@ def write_if_changed(path, text):
 
 def placeholder(name, spec):
     """definition emitted for a refused second-wave function: same signature, always Err"""
-    sig = " ".join("(%s : %s)" % (p, coq_ty(t)) for p, t in list(spec.get("selfargs", {}).items()) + list(spec["args"].items()))
+    sig = " ".join("(%s : %s)" % (p, coq_ty(t)) for p, t in list(spec.get("selfargs", {}).items())
+                   + list(spec.get("state", {}).values()) + list(spec["args"].items()))
+    if spec.get("fuel"):
+        sig = "(fuel : nat) " + sig
     rt = coq_ty(spec["ret"])
+    if spec["kind"] == "objmethod":
+        rt = "(%s * (%s))" % (rt, " * ".join(coq_ty(t) for _, t in spec["state"].values()))
     return "Definition %s %s : res %s :=\n  Err EOther." % (spec.get("coqname", name.split(".")[-1]), sig,
                                                            "(%s)" % rt if " " in rt and not rt.startswith("(") else rt)
 
@@ -1083,8 +1230,9 @@ def main():
     write_if_changed(os.path.join(outdir, "ArchiveinfoPrims.v"), text)
 
     # ---- second wave: one file per source area
-    for out, (srcdesc, requires) in OUT_FILES.items():
-        chunks = []
+    for out, desc in OUT_FILES.items():
+        srcdesc, requires = desc[0], desc[1]
+        chunks = [desc[2]] if len(desc) > 2 else []
         for name, spec in WAVE2.items():
             if spec["out"] != out:
                 continue
@@ -1107,6 +1255,8 @@ def main():
             except (Refused, OSError, SyntaxError) as r:
                 report["refused"][name] = str(r)
                 chunks.append("(* REFUSED %s: %s *)\n%s\n" % (name, str(r).replace("*)", "* )"), placeholder(name, spec)))
+        if len(desc) > 3:
+            chunks.append(desc[3] + "\n")
         text = HEADER2 % (srcdesc, requires) + "\n" + "\n".join(chunks)
         write_if_changed(os.path.join(outdir, out + ".v"), text)
     json.dump(report, open(os.path.join(outdir, "translate_report.json"), "w"), indent=1, sort_keys=True)
